@@ -10,6 +10,7 @@ Online (icontract postcondition on ExactSolver.__call__, every call of the workl
 Driver (per class, catalogue parameters):
   api.container  list / tuple / ndarray / non-contiguous view / Fortran-ordered copy give bit-equal
                  results; permuted and duplicated points give permuted/duplicated records
+                 (also: integer-valued positions given as integers; one ndarray re-filled in place between two calls)
   api.order      record k of a permuted+duplicated request carries the values of point k (compared with the records of
                  the original request; the permutation is never an involution)
   api.csv        dump() then csv + float(): every value reproduced exactly (NaN as NaN, strings as str)
@@ -197,6 +198,20 @@ def run(ctx, p):
             continue
         ctx.observe("api.container", name, same_records(sol, other), branch=label,
                     detail=dict(n=len(sol), names=list(sol.dtype.names)))
+    # ---- one ndarray object, re-filled in place between two calls (a host code's coordinate buffer) --------------------------
+    # the second call must answer for the values the array holds *now*: compared with a call on a fresh copy
+    if cheap and not e["grid"] and len(sol) >= 2:
+        buf = np.array(a, copy=True)
+        try:
+            ctx.call(s, buf, t)
+            new = take(ent, a, np.arange(len(sol))[::-1]) if len(sol) > 2 else take(ent, a, np.array([1, 0]))
+            buf[...] = new                                   # same object, other contents (the points in reverse order)
+            R2 = ctx.call(s, buf, t)
+            ref = ctx.call(s, np.array(new, copy=True), t)
+            ctx.observe("api.container", name, same_records(ref, R2), branch="ndarray re-filled in place between two calls",
+                        detail=dict(n=len(sol), t=t, params={k: v for k, v in d["passed"].items() if isinstance(v, (int, float, str))}))
+        except SolverRaised as ex:
+            ctx.count("refilled_buffer_case_raised:" + name)
     # ---- integer-valued positions: [0, 1, 2] and [0., 1., 2.] are the same points --------------------------------------
     # (whatever the float request returns - values, NaN outside the domain - the integer request must return as well; a
     #  request the solver refuses in both forms is skipped)
